@@ -59,7 +59,15 @@ def replay_case(col, item):
     def fileset(cov):
         if cov not in fs_by_cov:
             tc = {"none": None, "hour": "1 hour", "day": dt.timedelta(days=1)}[cov]
-            fs_by_cov[cov] = FileSet(os.path.join(base, template), time_coverage=tc)
+            if (len(template) + variant) % 3 == 0:
+                # an existing fileset object that is given this template LATER (fs.path = ...): every later answer is that
+                # of the new template alone
+                f = FileSet(os.path.join(base, "{year2}{month}{day}{hour}.dat"), time_coverage=tc)
+                f.get_info(f.get_filename(dt.datetime(2010, 11, 12, 13)))
+                f.path = os.path.join(base, template)
+                fs_by_cov[cov] = f
+            else:
+                fs_by_cov[cov] = FileSet(os.path.join(base, template), time_coverage=tc)
         return fs_by_cov[cov]
     start_exp = to_dt(case["start"])
     s = to_dt(case["s"], extra_us=case["s"][6] % 2 * 600)      # sub-millisecond part must be truncated, not rounded
